@@ -17,7 +17,7 @@ import (
 
 func init() {
 	simrt.Register(&simrt.Scenario{
-		Prop: "C10", Name: "hs-random", Count: tiered(8000, 60000),
+		Prop: "C10", Name: "hs-random", Count: tiered(8000, 480000),
 		Run: func(rc *simrt.RunCtx) { c10Run(rc, -1) }, MaxOps: 2 << 20, Horizon: 3 * time.Hour,
 		Doc: "client and server constructors in application retry loops, random drop/dup/delay on every packet during a fault prefix, stale packets of every type pre-queued in both directions, all start orders; safety oracle on every successful constructor, progress oracle after the last fault",
 	})
